@@ -8,6 +8,17 @@ HERE = os.path.dirname(os.path.dirname(os.path.abspath(__file__)))
 
 # id -> (level, technique, text, note, design_ref)
 CHECKS = {
+    'C05': ('exploration',
+            'Hypothesis generation of event sets x bin specifications x fractions x smoothing; invariants '
+            'recomputed independently from the returned artefacts; metamorphic relations (permutation, monotone '
+            'in f, replay)',
+            'For generated event sets (ties, clusters, out-of-grid and on-edge events) and bin specifications '
+            '(counts, explicit edges, mixtures, sample-derived linear/log/logicle bins) the returned mask, bin '
+            'mask and edges are checked for bin atomicity, in-grid, lower bound ceil(f*n), minimality, density '
+            'order against an independently smoothed histogram, f=0/f=1, permutation invariance, monotonicity in '
+            'f, exact replay, gated==data[mask], and refusals.',
+            'Trusted: scipy.ndimage.gaussian_filter as the documented smoothing; searchsorted bin assignment.',
+            'DESIGN.md section 4, C05'),
     'C08': ('exploration',
             'Hypothesis generation of containers with cells on/next to thresholds x gate parameters; '
             'independently written reference predicates; gated == data[mask]; short == full form',
